@@ -70,7 +70,7 @@ pub fn small_cases(prop: u8) -> Vec<Case> {
                                     kind,
                                     CtorKind::FromVec,
                                     init(n, 0),
-                                    vec![Op::IterMut { prog: prog.clone(), rw, rwmask, tagw: None, end: EndHow::Drop, via_into }],
+                                    vec![Op::IterMut { prog: prog.clone(), rw, rwmask, tagw: None, end: EndHow::Drop, via_into, late: false }],
                                 ));
                             }
                         }
